@@ -8,6 +8,7 @@ from __future__ import annotations
 from .common import Ctx, run_check
 from . import sysprop
 from .c02 import invariants_on_traces
+from . import exit_check
 
 PROFILE = {"fail": 0.12, "cancel": True, "cancel_p": 0.12, "deps": True, "multi_shutdown": True, "mid_shutdown": False,
            "gate_p": 0.35, "block_res_p": 0.0, "no_final_shutdown_p": 0.25, "timeout": 10}
@@ -29,15 +30,23 @@ REQUIRED = ["wBoot", "wProcStop", "wStopAck", "wJoinExit", "sdJoinThread", "sdFi
 
 def body(ctx: Ctx):
     if ctx.replay_file:
+        import json
+        payload = json.load(open(ctx.replay_file))
+        if "exit_scenario" in payload:
+            return exit_check.replay(ctx, "C12", payload)
         return sysprop.replay(ctx, "C12", ctx.replay_file)
     n = 110 if ctx.tier == "quick" else 1100
     res = sysprop.campaign(ctx, "C12", PROFILE, n, CORPUS, REQUIRED)
     checked, stuck = invariants_on_traces(ctx, "C12", PROFILE, 30 if ctx.tier == "quick" else 300)
     ctx.oblige("executable invariants hold on %d replayed traces; %d end shut down with no worker process alive in the model" % (checked, stuck), True)
+    res["script_exit_scenarios"] = exit_check.decide(ctx, "C12", 12 if ctx.tier == "quick" else 80)
     res["rule"] = ("engine B: histories of succeeding, raising (12%), cancelled and dependent calls followed by shutdown(wait=True), "
                    "shutdown(wait=False) or nothing (drop, 25%), block executors with 1-3 workers and per-call executors; oracles: no "
                    "descendant process running an executorlib backend script at the instant shutdown(wait=True) returns or raises, none "
-                   "after quiescence otherwise, no executor thread alive at the end; raising calls fall into the listed findings D17/D19")
+                   "after quiescence otherwise, no executor thread alive at the end; raising calls fall into the listed findings D17/D19; "
+                   "plus script-exit scenarios: a child interpreter runs a user script that ends (normal interpreter exit) while calls "
+                   "are running after shutdown(wait=False) / del / nothing / a with-block whose body shut down without waiting; the "
+                   "worker pids are scanned until the calls have finished")
     res["trusted_base_extra"] = sysprop.TRUST + ["/proc scan for descendants whose command line contains an executorlib backend script"]
     return res
 
